@@ -59,6 +59,7 @@ class Module:
         if not isinstance(module, Module):
             raise TypeError("All submodules must be of type Module")
         
+        self._parameters.pop(name, None)
         self._submodules[name] = module
         object.__setattr__(self, name, module)
         
@@ -68,6 +69,7 @@ class Module:
         if not isinstance(parameter, Parameter):
             raise TypeError("All parameters must be of type Parameter")
         
+        self._submodules.pop(name, None)
         self._parameters[name] = parameter
         object.__setattr__(self, name, parameter)
         
@@ -90,7 +92,10 @@ class Module:
             self.register_module(__name, __value)
         elif isinstance(__value, Parameter):
             self.register_parameter(__name, __value)
-        else:  
+        else:
+            # re-assigning a registered attribute to something else (e.g. None) drops its registration
+            if '_parameters' in self.__dict__: self._parameters.pop(__name, None)
+            if '_submodules' in self.__dict__: self._submodules.pop(__name, None)
             object.__setattr__(self, __name, __value)
     
     def parameters(self) -> list['Parameter']:
